@@ -118,7 +118,8 @@ def solve(res: Result, timeout_ms=10000, procs=None):
         else:
             sl = relevance_slice(ob.hyps, ob.goal)
             ob.info["slice"] = (len(sl), len(ob.hyps))
-            jobs.append({"name": ob.name, "sliced": to_smt2(ax, sl, ob.goal),
+            ax_sl = global_axioms(col.used_classes, REG, terms=sl + [ob.goal])
+            jobs.append({"name": ob.name, "sliced": to_smt2(ax_sl, sl, ob.goal),
                          "full": to_smt2(ax, ob.hyps, ob.goal) if len(sl) < len(ob.hyps) else None})
     t0 = time.time()
     res.status = discharge(jobs, timeout_ms=timeout_ms, procs=procs)
